@@ -1,21 +1,28 @@
 """C05 - nogood-learning search."""
 from mirlib import facts, flow, ir, symx
 from mirlib.pat import ANY, ADT, C, CLOS, F, IDX, K, OP, P, TUP, V, match
-from rules import kernel, semantics, shared
+from rules import deps, kernel, semantics, shared
 from rules.kernel import deep_strip, strip, is_call, effects_named, cond_val, int_of, unloop
 
 EXPLANATION = """
 Decided: C05.F-heu (every function in the Heuristic::get_heuristic registry returns Some((Var(i), t)) only with i the
-enumerate index of an entry that passed !is_truth_value and t of class BOT/TOP; Custom is handed through unchanged),
+enumerate index of an entry that passed !is_truth_value and t of class BOT/TOP; a position drawn into the list of undecided entries is
+reduced modulo the length of that same, non-empty list; Custom is handed through unchanged),
 C05.P-sender (the Sender handed to stable_nogood_channel / two_val_nogood_channel / stable_nogood_get_vec is moved only
 into nogood_internal, used there only by reference for `send`, never cloned, and dropped on every returning path; in
 stable_nogood_get_vec the receiver is drained after nogood_internal returned), C05.P-emit (every `send(m)` happens on a
 path on which no update occurred in the round, is_two_valued(m) and the stability closure applied to the same m are
 true, m is pushed on the nogood stack and backtracking is requested; conversely every such path sends - two-valued mode:
 the closure is constantly true), C05.P-lockstep (a choice pushes the pre-choice interpretation on interpr_history and a
-flagged entry on the stack together; popping a flagged entry pops interpr_history and stops), C05.P-choice (the value
+flagged entry on the stack together; popping a flagged entry pops interpr_history and stops), C05.P-exhaust (unwinding the
+whole stack without restoring a choice ends the search: the structural support of termination that does not depend on the
+nogood of the current interpretation being storable), C05.P-choice (the value
 proposed by the heuristic is stored at the proposed variable's own position), the C18 primitives the loop uses and
-S.F-full/S.F-reduct for apply_interpretation / stability_check / grounded_internal, S.X-exhaust on the result channel."""
+S.F-full/S.F-reduct for apply_interpretation / stability_check / grounded_internal, S.X-exhaust on the result channel.
+Dependency suites (rules/deps.py; each obligation is a necessary condition of this property, reported under its own rule id):
+kernel-build (C07.T-conn, C07.T-ite0, C07.R-ite, S.F-memo ite_cache, S.R-node, S.R-new, S.W-store, C06.W-ctor), kernel-restrict
+(C07.R-restrict, S.F-memo restrict_cache) and translation (C09.A-wire, C09.A-term, C09.F-order, C09.A-name, C01.A-hybrid): an answer
+is computed on diagrams built by these functions, on every back-end."""
 NOT_DECIDED = "Termination and exactness over all search histories, arbitrary custom heuristics and all Rand seeds: a ranking argument over unbounded branching histories is out of reach."
 TECHNIQUE = "static analysis: loop-cut path summaries of nogood_internal (guards/effects per exit), ownership/drop analysis of the Sender in MIR, registry agreement with index provenance"
 
@@ -196,9 +203,39 @@ def index_of_undecided(idx, p, INT, lib, ctx, rule, name):
                 ok, pred = filtered_chain(deep_strip(coll[2][0]), INT)
                 if ok and pred:
                     pred_table(ctx, lib, rule, name, pred)
+                    okb, whyb = index_in_bounds(deep_strip(item[2]), coll, p)
+                    ctx.ob(rule, name + ".index-in-bounds", okb, expected="position = x % len(the indexed collection), collection tested non-empty",
+                           found=whyb, kind="refuted" if whyb.startswith("modulus") else "cannot-establish")
                     return True, None
             return False, "indexed collection is not the filtered enumerate chain"
     return False, "index %s is not the enumerate index of an entry" % symx.show(idx)[:120]
+
+
+def index_in_bounds(pos, coll, p):
+    """pos: index expression into `coll` on path p.  Recognised bound idiom: x % len(coll) (through try_from/Ok/casts) under a
+    non-emptiness test of coll.  An index reduced modulo the length of another collection is refuted."""
+    x = pos
+    while True:
+        if x[0] in ("field", "downcast"):
+            x = x[1]
+        elif x[0] == "app" and flow.last(str(x[1])) in ("try_from", "try_into", "into", "from", "unwrap", "expect", "unwrap_or_default") and x[2]:
+            x = deep_strip(x[2][0])
+        else:
+            break
+    if not (x[0] == "app" and x[1] == "Rem" and len(x[2]) == 2):
+        return False, "index %s is not reduced modulo a length" % symx.show(pos)[:120]
+    m = deep_strip(x[2][1])
+    if not (m[0] == "app" and flow.last(str(m[1])) == "len" and m[2]):
+        return False, "modulus %s is not a length" % symx.show(m)[:120]
+    if deep_strip(m[2][0]) != coll:
+        return False, "modulus is the length of another collection: %s" % symx.show(m)[:160]
+    for e, v in p.cond:
+        e = deep_strip(unloop(e))
+        if e[0] == "app" and flow.last(str(e[1])) == "is_empty" and e[2] and deep_strip(e[2][0]) == coll and int_of(v) == 0:
+            return True, "x % len(collection), collection non-empty"
+        if e[0] == "app" and e[1] in ("Eq", "Ne", "Gt", "Lt", "Ge", "Le") and symx.contains(e, lambda n_: n_ == m):
+            return True, "x % len(collection), length tested"
+    return False, "no non-emptiness test of the indexed collection on the path (x % 0 panics)"
 
 
 # ------------------------------------------------------------------ nogood_internal
@@ -338,11 +375,68 @@ def P_lockstep(ctx, lib, b, paths):
         else:
             ctx.ob(rule, "unflagged-pop-continues", len(pops) == 1 and p.end == "backedge", where=b.where(), expected="keeps popping", found="%d pops, %s" % (len(pops), p.end))
     ctx.floor(rule, "pop paths", n_pop, 2)
-    # termination exit: return only when backtracking with an empty stack
+    # termination exit: return only when backtracking with an empty stack (tested with is_empty, or found empty by the unwinding pop)
     for p in paths:
         if p.end == "return":
             emp = [(deep_strip(unloop(e)), v) for e, v in p.cond if is_call(deep_strip(unloop(e)), "Vec::is_empty")]
-            ctx.ob(rule, "return-iff-stack-empty-on-backtrack", len(emp) == 1 and int_of(emp[0][1]) == 1, where=b.where(), expected="leave the search loop only when backtracking with an empty stack", found=p.describe()[:240])
+            ok = len(emp) == 1 and int_of(emp[0][1]) == 1 or bool(pop_none(p))
+            ctx.ob(rule, "return-iff-stack-empty-on-backtrack", ok, where=b.where(), expected="leave the search loop only when backtracking with an empty stack", found=p.describe()[:240])
+    P_exhaust(ctx, lib, b, paths)
+
+
+def pop_none(p):
+    """conditions of path p stating that a Vec::pop (the unwinding pop of the nogood stack) returned None"""
+    out = []
+    for e, v in p.cond:
+        e = deep_strip(unloop(e))
+        if e[0] == "app" and e[1] == "discr" and is_call(deep_strip(e[2][0]), "Vec::pop") and int_of(v) != 1 and v != symx.vint(1):
+            if isinstance(v, tuple) and v[0] == "notin" and 1 in v[1] or int_of(v) == 0:
+                out.append(e)
+    return out
+
+
+def P_exhaust(ctx, lib, b, paths):
+    rule = "C05.P-exhaust"
+    ctx.rule(rule, "termination support: when backtracking unwinds the whole stack without restoring a choice (the unwinding pop returns None), the search ends "
+                   "(return, nothing sent on the way) - otherwise the same interpretation is examined again, which repeats for ever whenever its nogood cannot be "
+                   "stored; alternatively discharged if NoGoodStore::add_ng stores its argument on every path that is not a duplicate/subsumption rejection")
+    n = 0
+    bad = []
+    for p in paths:
+        if not pop_none(p):
+            continue
+        n += 1
+        sends = [e for e in p.effects if e.get("kind") == "call" and flow.fname(e["resolved"]) == "Sender::send"]
+        if p.end != "return" or sends:
+            bad.append(p)
+    ctx.floor(rule, "paths on which the unwinding pop finds the stack exhausted", n, 1)
+    if not bad:
+        ctx.ob(rule, "unwound-stack-ends-search", True, where=b.where(), expected="every stack-exhausted unwinding path returns", found="%d paths, all return" % n)
+        return
+    # alternative support: add_ng is total
+    total, why = add_ng_total(ctx, lib)
+    ctx.ob(rule, "unwound-stack-ends-search", total, where=b.where(), expected="stack-exhausted unwinding returns, or add_ng stores every nogood",
+           found="%d of %d stack-exhausted paths continue the search (%s); add_ng: %s" % (len(bad), n, bad[0].end, why))
+
+
+def add_ng_total(ctx, lib):
+    try:
+        ab = lib.one("nogoods::NoGoodStore::add_ng")
+    except LookupError as e:
+        return False, "add_ng not found (%s)" % e
+    eng = ctx.engine([lib], no_inline={"adf_bdd::nogoods::NoGood::is_violating", "adf_bdd::nogoods::NoGood::len"}, max_paths=5000)
+    try:
+        ps = eng.summarise(ab)
+    except Exception as e:  # noqa
+        return False, "cannot summarise add_ng (%s)" % e
+    for p in ps:
+        if p.end != "return":
+            continue
+        pushed = effects_named(p, "Vec::push")
+        dup = [e for e, v in p.cond if symx.contains(deep_strip(unloop(e)), lambda n_: n_[0] == "app" and flow.last(str(n_[1])) in ("contains", "any", "is_violating"))]
+        if not pushed and not dup:
+            return False, "a path returns without storing and without a duplicate test: %s" % p.describe()[:160]
+    return True, "every returning path stores or rejects a duplicate"
 
 
 def P_sender(ctx, lib, b, paths):
@@ -497,3 +591,4 @@ def check(ctx):
         ctx.rule(rule, "restriction idioms the loop relies on: apply_interpretation FULL, stability_check REDUCT, grounded_internal FULL")
         k, seen = semantics.F_restrict_native(ctx, lib, rule, only={"Adf::stability_check", "Adf::apply_interpretation", "Adf::grounded_internal"})
         ctx.floor(rule, "native restriction sites", k, 3)
+        deps.semantics_base(ctx, lib)
